@@ -32,6 +32,7 @@ TRUSTED = ["(R) not verified, compared with the verified reference sp_decide on 
            "exercised through it"]
 ASSUMPTIONS = ["data_type = soc, every order ranks every alternative exactly once, >= 1 order, orders distinct "
                "(quantifier of C03)"]
+COVER_FILES = ['properties/subdomains/ordinal/singlepeaked/singlepeakedness.py']
 TIMEOUT_S = 30.0
 CHUNK = 40
 THEOREMS_FOR_OP = {"c03.sp": "sp_decide_correct / sp_check_axis_correct / sp_restrict"}
